@@ -2,7 +2,7 @@
 // fixed scenario on the real code. A scenario is a script of steps; each step
 // injects one or more environment events at once and lets the system run to
 // quiescence while the explorer decides, at every synchronisation point of
-// the library (lock, unlock, condition signal, goroutine start), which
+// the library (lock, unlock, condition wait and signal), which
 // runnable goroutine continues. All schedules whose number of non-default
 // decisions stays within the bound are executed (iterative context bounding:
 // bound 0, 1, 2, ...).
@@ -82,6 +82,9 @@ var RaceMode bool
 // runs on the file-backed storages.
 var ScratchDir func() string
 
+// Debug, if set, sees the cluster at the end of every execution (dev aid).
+var Debug func(c *sim.Cluster)
+
 // AfterRun, if set, is called after every execution (race log inspection).
 var AfterRun func(choices []int) []*common.Violation
 
@@ -92,6 +95,7 @@ type Outcome struct {
 	Final      string // digest of the final state (distinct outcomes)
 	Diverged   string
 	Steps      int64
+	Skipped    string // first step that was not applicable under this schedule
 }
 
 // Alternatives lists the number of alternatives at each decision point.
@@ -155,6 +159,7 @@ func RunOnce(sc *Scenario, choices []int) *Outcome {
 		if err := c.ApplyPar(step); err != nil {
 			// an event that is not applicable under this schedule (e.g. the
 			// message it names was never sent) ends the execution quietly
+			out.Skipped = fmt.Sprint(err)
 			break
 		}
 		if !check() {
@@ -170,6 +175,9 @@ func RunOnce(sc *Scenario, choices []int) *Outcome {
 		if v := sc.Final(c); v != nil {
 			out.Violations = append(out.Violations, v)
 		}
+	}
+	if Debug != nil {
+		Debug(c)
 	}
 	if RaceMode {
 		out.Final = fmt.Sprint(len(st.points))
